@@ -1,4 +1,5 @@
 import Stingray.Model.Decode
+import Stingray.Model.Schema
 import Stingray.Driver.Util
 /-! Line protocol for the picture / decode family (C02, C04, C13, C18). -/
 namespace Stingray.Drv.Dec
@@ -38,6 +39,13 @@ def showScan (raw : List Char) : String :=
 def handle (tbl : List ByteInfo) : List String → String
   | ["scan", pic] => showScan (cpsToChars pic)
   | ["gennumeric", pic] => toString (genNumeric (cpsToChars pic))
+  | ["jsontype", usage, pic] =>
+    match Usage13.ofString usage with
+    | some u =>
+      let j := Stingray.Schema.jsonType u (genNumeric (cpsToChars pic))
+      j.type ++ "," ++ j.encoding.getD "-" ++ "," ++ j.conversion.getD "-" ++ "," ++
+        Stingray.Schema.jsonTypeExt u (genNumeric (cpsToChars pic))
+    | none => "bad-usage"
   | ["calcsize", usage, pic] =>
     match Usage13.ofString usage, scan (cpsToChars pic) with
     | some u, .ok es => match calcsize u es with | some n => toString n | none => "ValueError"
